@@ -6,7 +6,7 @@ OUT = os.path.join(ROOT, "seeded")
 os.makedirs(OUT, exist_ok=True)
 n = 0
 jobs = []
-for rnd, rawname in ((1, "seeded_raw"), (2, "seeded_raw2"), (3, "seeded_raw3"), (4, "seeded_raw4"), (5, "seeded_raw5"), (6, "seeded_raw6"), (7, "seeded_raw7"), (8, "seeded_raw8"), (9, "seeded_raw9"), (10, "seeded_raw10"), (11, "seeded_raw11"), (12, "seeded_raw12")):
+for rnd, rawname in ((1, "seeded_raw"), (2, "seeded_raw2"), (3, "seeded_raw3"), (4, "seeded_raw4"), (5, "seeded_raw5"), (6, "seeded_raw6"), (7, "seeded_raw7"), (8, "seeded_raw8"), (9, "seeded_raw9"), (10, "seeded_raw10"), (11, "seeded_raw11"), (12, "seeded_raw12"), (13, "seeded_raw13")):
     RAW = os.path.join(ROOT, rawname)
     matrix = {}
     mp = os.path.join(RAW, "matrix.tsv")
